@@ -19,7 +19,7 @@ use crate::util::*;
 pub const PROP: Prop = Prop {
     id: "C01",
     level: "exploration",
-    rule: "(round 8: Display under nine format specs - width, fill, alignment, precision, sign, alternate, zero padding - still reads back as the value) (rounds 6-7: values nested as deep as the reader accepts - measured on the tree - with every kind of atom innermost; integral doubles of at most 15 significant digits between 2^53/10 and 10^16, which print as 16-17 digits) values from the recursive generator G_value(default dialect), towers of up to 60 (100) nesting levels, wide values (lists and vectors of 100-400 (1500) elements repeating a few small units: dotted pairs, improper lists, vectors, nested lists, atoms), atoms of 256 B .. 64 KiB (128 KiB) with a multi-byte character straddling the size threshold, every plain identifier of up to 3 (4) characters over a 9-character alphabet plus enumerated sweeps (scalars as chars and 1-char strings, byte singletons, integer boundary table, float table); each value is printed through 5 entry points, parsed through 4, and read by the independent R7RS reader; non-trivial = contains a list/vector, or an atom whose text is not its payload verbatim (escape, #\\x form, exponent form, negative number, keyword, byte vector); distinct by digest of the model value",
+    rule: "(round 9: atoms of 32 MiB and more - 128 and 256 MiB in the thorough tier - as string, symbol and byte vector through the str, slice, reader and buffered-reader entry points) (round 8: Display under nine format specs - width, fill, alignment, precision, sign, alternate, zero padding - still reads back as the value) (rounds 6-7: values nested as deep as the reader accepts - measured on the tree - with every kind of atom innermost; integral doubles of at most 15 significant digits between 2^53/10 and 10^16, which print as 16-17 digits) values from the recursive generator G_value(default dialect), towers of up to 60 (100) nesting levels, wide values (lists and vectors of 100-400 (1500) elements repeating a few small units: dotted pairs, improper lists, vectors, nested lists, atoms), atoms of 256 B .. 64 KiB (128 KiB) with a multi-byte character straddling the size threshold, every plain identifier of up to 3 (4) characters over a 9-character alphabet plus enumerated sweeps (scalars as chars and 1-char strings, byte singletons, integer boundary table, float table); each value is printed through 5 entry points, parsed through 4, and read by the independent R7RS reader; non-trivial = contains a list/vector, or an atom whose text is not its payload verbatim (escape, #\\x form, exponent form, negative number, keyword, byte vector); distinct by digest of the model value",
     assumptions: &[
         "plain identifier = R7RS <identifier> productions without |..| and without the numeric look-alikes +i -i +inf.0 -inf.0 +nan.0 -nan.0",
         "float acceptance per DESIGN.md A.4: bit-exact in the noff build; in the ff build bit-exact when the shortest form has <=15 significant digits, fits 2^53 and |exponent|<=22 under the written, effective and scientific reading; otherwise within 2^-50 relative (1.25 slack for the half-ulp between the double and its shortest decimal)",
